@@ -28,6 +28,7 @@ PEDS = {
     "duo-only": ([[-1, -1], [0, -1]], [4, 2]),
     "selfing": ([[-1, -1], [0, 0], [1, 0]], [2, 2, 2]),
     "second-column": ([[-1, -1], [-1, 0], [1, 0]], [2, 4, 6]),
+    "progeny-first": ([[2, 3], [3, 2], [-1, -1], [-1, -1], [0, -1]], [2, 4, 2, 2, 2]),  # samples listed youngest first
 }
 
 
